@@ -762,7 +762,7 @@ func c18stdlibConfig(d []byte) string {
 type c18w struct {
 	buf    []byte
 	calls  int
-	failAt int // index of the Write that fails (-1: never)
+	failAt int  // index of the Write that fails (-1: never)
 	sticky bool // every later Write fails too
 	failed bool
 }
@@ -970,6 +970,23 @@ type c18gen struct {
 	mode  int
 	tog   [3]int
 	pool  [2][]llj.BlockI16
+	units [][]llj.BlockI16 // whole units refined for output length ("stuff")
+}
+
+// unit fills one unit's worth of blocks.
+func (g *c18gen) unit(p *c18img, tmp []llj.BlockI16) {
+	if g.class == "stuff" && len(g.units) > 0 && g.r.Intn(3) != 0 {
+		copy(tmp, g.units[g.r.Intn(len(g.units))])
+		if g.r.Intn(2) == 0 {
+			for b := range tmp {
+				tmp[b][0] = -tmp[b][0] - 1
+			}
+		}
+		return
+	}
+	for b := 0; b < p.nb; b++ {
+		g.block(c18compOf(p.nb, b), c18tableOf(&p.q, p.nb, b), &tmp[b])
+	}
 }
 
 func c18clamp(v, lo, hi int) int16 {
@@ -1208,6 +1225,59 @@ func (g *c18gen) buildPool(s *c18sess, q *llj.Array2QuantizationFactors) {
 	})
 }
 
+// refineUnits continues the climb on whole units of the image's colour type,
+// so that the bit alignment between the blocks of a unit is part of the search.
+func (g *c18gen) refineUnits(s *c18sess, iters int) {
+	r := g.r
+	p := s.p
+	cands := []int16{1023, -1023, 1022, -1022, 1021, 1019, 1015, 1007, 991, 959, 895, 767, 511, -511, 512, -512, 255, -255, 0}
+	s.call("AddN (search for long units)", func() error {
+		enc := &llj.Encoder{}
+		cw := &c18countw{}
+		qq := p.q
+		if err := enc.Reset(cw, p.ct, 65535, 65535, &llj.EncoderOptions{QuantizationFactors: &qq}); err != nil {
+			return nil
+		}
+		flip := make([]llj.BlockI16, p.nb)
+		fit := func(u []llj.BlockI16) int {
+			n0 := cw.n
+			c18add(enc, cw, p.nb, u)
+			for b := range u {
+				flip[b] = u[b]
+				flip[b][0] = -u[b][0] - 1
+			}
+			c18add(enc, cw, p.nb, flip)
+			return cw.n - n0
+		}
+		for k := 0; k < 2; k++ {
+			u := make([]llj.BlockI16, p.nb)
+			for b := range u {
+				pool := g.pool[0]
+				if c18compOf(p.nb, b) > 0 {
+					pool = g.pool[1]
+				}
+				u[b] = pool[r.Intn(len(pool))]
+			}
+			best := fit(u)
+			for it := 0; it < iters; it++ {
+				b, i := r.Intn(p.nb), r.Intn(64)
+				old := u[b][i]
+				u[b][i] = cands[r.Intn(len(cands))]
+				if i == 0 {
+					u[b][i] = []int16{1023, -1024}[r.Intn(2)]
+				}
+				if f := fit(u); f >= best {
+					best = f
+				} else {
+					u[b][i] = old
+				}
+			}
+			g.units = append(g.units, u)
+		}
+		return nil
+	})
+}
+
 var c18specialDims = []int{1, 7, 8, 9, 15, 16, 17, 31, 32, 33, 47, 48, 49, 63, 64, 65}
 
 func c18dims(r *rand.Rand) (w, h int) {
@@ -1273,9 +1343,7 @@ func (s *c18sess) afterError(enc *llj.Encoder, wr *c18w, g *c18gen) {
 	p := s.p
 	tmp := make([]llj.BlockI16, p.nb)
 	for n := 1 + g.r.Intn(2); n > 0; n-- {
-		for b := 0; b < p.nb; b++ {
-			g.block(c18compOf(p.nb, b), c18tableOf(&p.q, p.nb, b), &tmp[b])
-		}
+		g.unit(p, tmp)
 		before := len(wr.buf)
 		err, pan := s.call("AddN after an error", func() error { return c18add(enc, wr, p.nb, tmp) })
 		if pan {
@@ -1421,6 +1489,13 @@ func c18image(rc *vk.Rec, enc *llj.Encoder, r *rand.Rand, phase string, idx int6
 	}
 	if g.class == "stuff" {
 		g.buildPool(s, &p.q)
+		if !s.bad {
+			iters := 150
+			if rc.Thorough() {
+				iters = 600
+			}
+			g.refineUnits(s, iters)
+		}
 		if s.bad {
 			return false
 		}
@@ -1489,9 +1564,7 @@ func c18image(rc *vk.Rec, enc *llj.Encoder, r *rand.Rand, phase string, idx int6
 		return !s.bad
 	}
 	for u := 0; u < target && !errored; u++ {
-		for b := 0; b < p.nb; b++ {
-			g.block(c18compOf(p.nb, b), c18tableOf(&p.q, p.nb, b), &tmp[b])
-		}
+		g.unit(p, tmp)
 		if p.hist == "wrongN" && u == p.histAt {
 			if !wrongN() {
 				return false
@@ -1547,9 +1620,7 @@ func c18image(rc *vk.Rec, enc *llj.Encoder, r *rand.Rand, phase string, idx int6
 	units := len(s.added) / p.nb
 	complete := units == p.N
 	if complete && !errored && p.hist == "wrongN" {
-		for b := 0; b < p.nb; b++ {
-			g.block(c18compOf(p.nb, b), c18tableOf(&p.q, p.nb, b), &tmp[b])
-		}
+		g.unit(p, tmp)
 		if !wrongN() {
 			return false
 		}
@@ -1559,9 +1630,7 @@ func c18image(rc *vk.Rec, enc *llj.Encoder, r *rand.Rand, phase string, idx int6
 		return false
 	}
 	if complete && extra {
-		for b := 0; b < p.nb; b++ {
-			g.block(c18compOf(p.nb, b), c18tableOf(&p.q, p.nb, b), &tmp[b])
-		}
+		g.unit(p, tmp)
 		before := len(wr.buf)
 		err, pan := s.call("AddN beyond the last unit", func() error { return c18add(enc, wr, p.nb, tmp) })
 		if pan {
@@ -1692,9 +1761,7 @@ func c18alloc(rc *vk.Rec) {
 		units := make([][]llj.BlockI16, p.N+1)
 		for u := range units {
 			units[u] = make([]llj.BlockI16, p.nb)
-			for b := 0; b < p.nb; b++ {
-				g.block(c18compOf(p.nb, b), c18tableOf(&p.q, p.nb, b), &units[u][b])
-			}
+			g.unit(p, units[u])
 		}
 		var a1 []llj.Array1BlockI16
 		var a3 []llj.Array3BlockI16
